@@ -144,6 +144,8 @@ func (t *sleepTransaction) stopTimer() {
 
 func (t *sleepTransaction) startSleep() {
 	t.log.Debug("Sleeping for %v...", t.sleepDuration)
+	// A duplicated DISCONNECT reply must not restart the sleep period.
+	t.state = sleeping
 	t.client.setState(util.StateAsleep)
 	t.timer = time.AfterFunc(t.sleepDuration, t.wakeup)
 }
